@@ -23,7 +23,10 @@ def _case(draw, tier):
     spec = draw(specs.add_metrics(spec))
     mets = [n for n, nd in spec['nodes'].items() if nd['k'] == 'met']
     plan = {m: draw(st.sampled_from(['value', 'value', 'missing', 'nan'])) for m in mets}
-    return {'spec': spec, 'plan': plan, 'vseed': draw(st.integers(0, 999))}
+    # what the user's _evaluate hands back: exactly the requested nodes, a map over ALL metric nodes of the design space
+    # (also those absent from the architecture), or one dict that persists and accumulates across evaluate() calls
+    return {'spec': spec, 'plan': plan, 'vseed': draw(st.integers(0, 999)),
+            'ev_mode': draw(st.sampled_from(['requested', 'requested', 'all_nodes', 'persistent']))}
 
 
 def strategy(tier):
@@ -57,10 +60,15 @@ def check_case(case):
 
     values = {m: 10.0+i for i, m in enumerate(sorted(mets))}
 
+    ev_mode = case.get('ev_mode', 'requested')
+    res.classes.append('evaluator_'+ev_mode)
+    persistent = {}
+    all_met_nodes = [b.node[m] for m in sorted(mets)]
+
     class Ev(DSGEvaluator):
         def _evaluate(self, dsg, metric_nodes):
-            out = {}
-            for node in metric_nodes:
+            out = persistent if ev_mode == 'persistent' else {}
+            for node in (all_met_nodes if ev_mode == 'all_nodes' else metric_nodes):
                 name = b.nm(node)
                 p = plan.get(name, 'value')
                 if p == 'value':
